@@ -27,6 +27,7 @@
 #include <xercesc/util/XercesDefs.hpp>
 #include <xercesc/util/PlatformUtils.hpp>
 #include <xercesc/util/Mutexes.hpp>
+#include <xercesc/util/XercesVerifHooks.hpp>
 
 namespace XERCES_CPP_NAMESPACE {
 
@@ -75,13 +76,16 @@ XMLMutexLock::XMLMutexLock(XMLMutex* const toLock) :
 
     fToLock(toLock)
 {
+    XERCES_VERIF_POINT(MutexPre, fToLock, 0, 0);
     fToLock->lock();
+    XERCES_VERIF_POINT(MutexPost, fToLock, 0, 0);
 }
 
 
 XMLMutexLock::~XMLMutexLock()
 {
     fToLock->unlock();
+    XERCES_VERIF_POINT(MutexUnlock, fToLock, 0, 0);
 }
 
 }
